@@ -400,10 +400,25 @@ class SubCtx:
 _PJ = None  # (parent ctx, worker) of the running parallel_jobs call: inherited by the forked pool, never pickled
 
 
+_KEEP: list = []
+
+
 def _job_entry(job):
     parent, worker = _PJ
     sub = SubCtx(parent, job)
     res = Result()
+    # forked workers stand for separate zorg processes: each gets its own scratch directory for built templates
+    # (ZorgTemplateManager.tmp_dir is created once at import time and would otherwise be shared by all workers, which then
+    # overwrite each other's built templates)
+    try:
+        import tempfile as _tf
+
+        from zorg.service import templates as _tm
+
+        _KEEP.append(_tm.ZorgTemplateManager.tmp_dir)   # (dropping the inherited object would delete the parent's directory)
+        _tm.ZorgTemplateManager.tmp_dir = _tf.TemporaryDirectory(prefix="zv-tmpl-")
+    except Exception:  # noqa: BLE001
+        pass
     try:
         with QuietStderr():
             ret = worker(sub, res, sub.rng, job)
